@@ -522,6 +522,9 @@ def run(ctx):
     # three threads: the state space is too large for BFS here; simulated schedules only (invariants checked along them)
     threads_part(ctx, quick, rnd, nthreads=3)
     stress_part(ctx, quick)
+    # separately compiled instances do not influence each other: rejected templates, templates with options of their own
+    from .. import isolation
+    ctx.replays += isolation.run(ctx, "separately compiled templates")
     for f in ctx.known():
         if f.get("witness"):
             ctx.witness(f)
